@@ -810,7 +810,7 @@ func lockOrder(pkgs []*pkgInfo) *orderResult {
 		for _, p := range oa.problems {
 			if !seen[p] {
 				seen[p] = true
-				fatal = append(fatal, "lock order: "+p)
+				orderFatal = append(orderFatal, "lock order: "+p)
 			}
 		}
 	}
